@@ -63,7 +63,8 @@ package server
 
 //@ func NewCache$1(c *elton.Context) (err error)
 //@   requires [ctx]     c != nil
-//@   requires [server]  s != nil && deref(s) != nil
+//@   requires [server]  s != nil
+//@   requires [registry] dispatchersOK()
 //@   requires [notok]   forall x *cache.httpCache :: $tok[x] == 0
 //@   requires [nolocks] nolocks()
 //@   requires [nodebt]  $owed == $sent_total
@@ -85,17 +86,17 @@ package server
 // contain one of the three directive names, compared case-insensitively. Proved in SMT string
 // theory; used as a fact about the uninterpreted reMatch in the function VCs.
 //@ lemma [nocache-ci] strings: forall s string :: reMatchLit(noCacheReg, s) <==> (ciContains(s, "no-cache") || ciContains(s, "no-store") || ciContains(s, "private"))
-//@ spec func ccOf(h http.Header) string := joinVals($hdr[h]["Cache-Control"], ",")
+//@ spec func ccOf(h http.Header) string := joinVals(hdr(h)["Cache-Control"], ",")
 //@ spec func lifetimeOf(cc string) int := reMatch(sMaxAgeReg, cc) ? atoi(reGroup1(sMaxAgeReg, cc)) : (reMatch(maxAgeReg, cc) ? atoi(reGroup1(maxAgeReg, cc)) : 0)
-//@ spec func ageOf(h http.Header) int := (hget($hdr[h], "Age") == "") ? 0 : atoi(hget($hdr[h], "Age"))
+//@ spec func ageOf(h http.Header) int := (hget(hdr(h), "Age") == "") ? 0 : atoi(hget(hdr(h), "Age"))
 
 // postconditions transcribed from the property statement (C03), not from the code
 //@ func getCacheMaxAge(header http.Header) (maxAge int)
 //@   nopanic
-//@   ensures [cookie] vlen($hdr[header]["Set-Cookie"]) > 0 ==> maxAge == 0
+//@   ensures [cookie] vlen(hdr(header)["Set-Cookie"]) > 0 ==> maxAge == 0
 //@   ensures [nocc]   ccOf(header) == "" ==> maxAge == 0
 //@   ensures [forbid] (ciContains(ccOf(header), "no-cache") || ciContains(ccOf(header), "no-store") || ciContains(ccOf(header), "private")) ==> maxAge == 0
-//@   ensures [value]  vlen($hdr[header]["Set-Cookie"]) == 0 && ccOf(header) != "" && !(ciContains(ccOf(header), "no-cache") || ciContains(ccOf(header), "no-store") || ciContains(ccOf(header), "private"))
+//@   ensures [value]  vlen(hdr(header)["Set-Cookie"]) == 0 && ccOf(header) != "" && !(ciContains(ccOf(header), "no-cache") || ciContains(ccOf(header), "no-store") || ciContains(ccOf(header), "private"))
 //@                      ==> maxAge == wrap64(lifetimeOf(ccOf(header)) - ageOf(header))
 
 // ---- registry of servers (live reconfiguration, C16) ---------------------------------------
@@ -105,9 +106,9 @@ package server
 //@ pred configuredAddr(opts []ServerOption, addr string) := exists i int :: 0 <= i && i < len(opts) && opts[i].Addr == addr
 
 //@ func (ss *servers) Reset$1(key string) (del bool)
-//@   requires [opts] opts != nil
+//@   requires [opts] len(opts) >= 0
 //@   effectfree
-//@   ensures [def] del <==> !configuredAddr(deref(opts), key)
+//@   ensures [def] del <==> !configuredAddr(opts, key)
 //@   loop 0: invariant [idx]  -1 <= $idx && $idx < len(opts)
 //@   loop 0: invariant [none] forall k int :: 0 <= k && k <= $idx ==> opts[k].Addr != key
 
@@ -143,3 +144,44 @@ package server
 //@   modifies lru.Cache::view, lru.Cache::dom, c.StatusCode, c.BodyBuffer, $hdr, $bytes
 //@   ensures [nokey] queryParam(c, "key") == "" ==> err != nil && (forall l *lru.Cache :: l.view == old(l.view) && l.dom == old(l.dom))
 //@   ensures [ok]    queryParam(c, "key") != "" ==> err == nil
+
+// ---- the proxy middleware (C03 flow, C14 not-found paths, C15 mutate/restore frame) ----------
+
+//@ spec func maxAgeOf(c *elton.Context) int := ctxInt(c.has[box("_httpCacheMaxAge")], c.kv[box("_httpCacheMaxAge")])
+// the request headers that can provoke a not-modified or partial answer
+// the location's configured request headers do not themselves add a conditional/range/accept-encoding header
+//@ pred addsNoTrigger(l *location.Location) := vlen(hdr(l.RequestHeader)["If-Modified-Since"]) == 0 && vlen(hdr(l.RequestHeader)["If-None-Match"]) == 0
+//@      && vlen(hdr(l.RequestHeader)["Range"]) == 0 && vlen(hdr(l.RequestHeader)["If-Range"]) == 0 && vlen(hdr(l.RequestHeader)["Accept-Encoding"]) == 0
+//@ pred noPartialTriggers(h http.Header) := hget($hdr[h], "If-Modified-Since") == "" && hget($hdr[h], "If-None-Match") == "" && hget($hdr[h], "Range") == "" && hget($hdr[h], "If-Range") == ""
+
+//@ func NewProxy$1(c *elton.Context) (err error)
+//@   requires [ctx]     c != nil
+//@   requires [server]  s != nil
+//@   requires [nolocks] nolocks()
+//@   modifies heap, $nexts, $proxied, $hdr, $bytes
+//@   ensures [locks]      nolocks()
+//@   ensures [label]      statusOf(c) == old(statusOf(c))
+//@   ensures [proxy-at-most-once] $proxied <= old($proxied) + 1
+//@   ensures [next-iff-ok]   (err == nil ==> $nexts == old($nexts) + 1 && $proxied == old($proxied) + 1) && $nexts <= old($nexts) + 1
+//@   ensures [next-after-proxy] $nexts == old($nexts) + 1 ==> $proxied == old($proxied) + 1
+//@   ensures_local [no-location] l == nil ==> err == ErrLocationNotFound && $proxied == old($proxied)
+//@   ensures_local [no-upstream] l != nil && upstream == nil ==> err == ErrUpstreamNotFound && $proxied == old($proxied)
+//@   ensures_local [contacted]   l != nil && upstream != nil ==> $proxied == old($proxied) + 1
+// C15: what the upstream is called with
+//@   precall github.com/vicanso/pike/upstream.upstreamServer.Proxy#0 [full-response] status == cache.StatusFetching && old(addsNoTrigger(l)) && l.RequestHeader != old(c.Request.Header) ==> noPartialTriggers(c.Request.Header)
+//@   precall github.com/vicanso/pike/upstream.upstreamServer.Proxy#0 [accept-encoding] upstream.Option.AcceptEncoding != "" ==> hget($hdr[c.Request.Header], "Accept-Encoding") == upstream.Option.AcceptEncoding
+//@   precall github.com/vicanso/pike/upstream.upstreamServer.Proxy#0 [same-request] c.Request.Header == old(c.Request.Header) && c.Request.URL == old(c.Request.URL) && c.Request.Method == old(c.Request.Method) && c.Request.Host == old(c.Request.Host)
+//@   precall github.com/vicanso/pike/upstream.upstreamServer.Proxy#0 [added-headers] forall k string :: k != "If-Modified-Since" && k != "If-None-Match" && k != "Range" && k != "If-Range" && k != "Accept-Encoding" && old(vlen(hdr(l.RequestHeader)[k])) == 0
+//@                      && l.RequestHeader != old(c.Request.Header) ==> $hdr[c.Request.Header][k] == old($hdr[c.Request.Header][k])
+// C15: what is restored before control leaves pike's code (error return, or the rest of the chain)
+//@   precall github.com/vicanso/elton.Context.Next#0 [restored] old(addsNoTrigger(l)) && l.RequestHeader != old(c.Request.Header) && l.ResponseHeader != c.Request.Header ==> hget($hdr[c.Request.Header], "If-Modified-Since") == old(hget($hdr[c.Request.Header], "If-Modified-Since"))
+//@                      && hget($hdr[c.Request.Header], "If-None-Match") == old(hget($hdr[c.Request.Header], "If-None-Match"))
+//@                      && hget($hdr[c.Request.Header], "Range") == old(hget($hdr[c.Request.Header], "Range"))
+//@                      && hget($hdr[c.Request.Header], "If-Range") == old(hget($hdr[c.Request.Header], "If-Range"))
+//@                      && hget($hdr[c.Request.Header], "Accept-Encoding") == old(hget($hdr[c.Request.Header], "Accept-Encoding"))
+//@   precall github.com/vicanso/elton.Context.Next#0 [path-restored] (old(c.Request.URL.Path) != "" ==> c.Request.URL.Path == old(c.Request.URL.Path)) && (old(c.Request.URL.RawQuery) != "" ==> c.Request.URL.RawQuery == old(c.Request.URL.RawQuery))
+// C03: the lifetime is only evaluated for fetching requests and only a positive one is recorded
+//@   precall github.com/vicanso/elton.Context.Next#0 [maxage] maxAgeOf(c) != old(maxAgeOf(c)) ==> status == cache.StatusFetching && maxAgeOf(c) > 0
+//@   precall github.com/vicanso/elton.Context.Next#0 [maxage-kept] status != cache.StatusFetching ==> maxAgeOf(c) == old(maxAgeOf(c))
+// C13: the server's compress profile, minimum length and filter are attached to the response
+//@   precall github.com/vicanso/elton.Context.Next#0 [response-set] c.has[box("_httpResp")] && typeis(c.kv[box("_httpResp")], "*cache.HTTPResponse") && unbox(c.kv[box("_httpResp")], "*cache.HTTPResponse") == httpResp && httpResp != nil
